@@ -10,7 +10,8 @@ ID = "C07"
 RULE = ("equilibrium (Moebius) and non-equilibrium (random bulge) arc tissues and straight Voronoi tissues, 3..40 cells, "
         "0..12 interior points per interface (fixed per physical interface); relabelled realisation vs plain one; for "
         "tissues with <= 7 cells ALL 2^cells orientation patterns; both circle fits, default / lsq_linear back-ends. "
-        "distinct = (family, cells, unknowns, equations, fit, method, flipped cells); non-trivial = at least one equation")
+        "distinct = (family, cells, unknowns, equations, fit, method, flipped cells); non-trivial = at least one equation"
+        ' Added after the seeded rounds: axis-aligned lattices whose outline stays straight while the internal interfaces are curved; ids up to 2^53+.')
 MIN_DECISIVE = {"quick": 150, "thorough": 2000}
 REQUIRED_COUNTERS = ["pairs", "clause:interfaces", "clause:equations", "clause:tensions", "clause:pressures"]
 TECHNIQUE = "metamorphic comparison of two realisations of one physical tissue through the public API, keyed by physical identity"
